@@ -230,6 +230,7 @@ def check_identifier(x: str, res: Result, naming, bp):
         except Exception as e:
             res.violation("key", ["to_dict-" + cname, sh, "raised:" + type(e).__name__], f"{x!r}: {e!r}", w)
     keys["ORIGINAL"] = x
+    maps_back_plainly = set(keys)
     for kname, key in keys.items():
         for form in ("classmethod", "instance", "from_pydict"):
             res.counters["key_roundtrips"] += 1
@@ -246,11 +247,29 @@ def check_identifier(x: str, res: Result, naming, bp):
                     m2 = cls().from_pydict({key: 42})
                 got = getattr(m2, py)
             except Exception as e:
+                maps_back_plainly.discard(kname)
                 res.violation("key", ["maps-back:" + kname, sh, "raised:" + type(e).__name__], f"key {key!r} for field {py!r} (proto {x!r}) via {form}: {e!r}", w)
                 continue
             if got != 42:
+                maps_back_plainly.discard(kname)
                 res.violation("key", ["maps-back:" + kname, sh, "field-dropped"],
                               f"proto field {x!r} -> python {py!r}: key {key!r} ({kname}) is not mapped back by {form} (value silently dropped)", w)
+    # order: a class whose FIRST sight of every key spelling is a JSON null (what to_dict(include_default_values=True) prints
+    # for unset optional / message fields) or a value of an unknown key, and only then the real value
+    try:
+        cls2 = dataclasses.make_dataclass("OneFieldNullFirst", [(py, int, bp.int32_field(1))], bases=(bp.Message,), eq=False, repr=False)
+        for kname, key in keys.items():
+            if kname not in maps_back_plainly:
+                continue  # a key that does not map back anyway is the business of the loop above
+            res.counters["key_roundtrips_after_null"] += 1
+            cls2().from_dict({key: None, "vfNoSuchField": 1})
+            cls2.from_dict({key: None})
+            got = [getattr(cls2().from_dict({key: 42}), py), getattr(cls2.from_dict({key: 42}), py), getattr(cls2().from_pydict({key: 42}), py)]
+            if got != [42, 42, 42]:
+                res.violation("key", ["maps-back-after-null:" + kname, sh, "field-dropped"],
+                              f"proto field {x!r} -> python {py!r}: key {key!r} ({kname}) first seen with a null is afterwards not mapped back: {got}", w)
+    except Exception as e:
+        res.violation("key", ["maps-back-after-null", sh, "raised:" + type(e).__name__], f"{x!r}: {e!r}", w)
 
 
 def _check_positions(x, py, res: Result, bp, w):
